@@ -39,6 +39,7 @@ func (cmpl *compiler) parseExpression(expr ast.Expression) nodeExpression {
 
 	case *ast.BinaryExpression:
 		return &nodeBinaryExpression{
+			idx:        expr.Idx0(),
 			operator:   expr.Operator,
 			left:       cmpl.parseExpression(expr.Left),
 			right:      cmpl.parseExpression(expr.Right),
@@ -416,6 +417,7 @@ type (
 	}
 
 	nodeBinaryExpression struct {
+		idx        file.Idx
 		left       nodeExpression
 		right      nodeExpression
 		operator   token.Token
